@@ -131,6 +131,7 @@ class Sample(object):
         self.mass = mass               # cell F19
         self.name = name if name else str(self.formula) # cell F20
         self.activity = {}
+        self._removal_activity = {}  # activity on removal from the beam, for decay_time
 
         # The following are set in calculation_activation
         self.environment = None  # type: "ActivationEnvironment"
@@ -154,9 +155,12 @@ class Sample(object):
         :func:`IAEA1987_isotopic_abundance`.
         """
         self.activity = {}
+        self._removal_activity = {}
         self.environment = environment
         self.exposure = exposure
         self.rest_times = rest_times
+        # Also compute the activity on removal from the beam (needed by decay_time)
+        rest_times = [0] + list(rest_times)
         for el, frac in self.formula.mass_fraction.items():
             if core.isisotope(el):
                 A = activity(el, self.mass*frac, environment, exposure, rest_times)
@@ -176,14 +180,13 @@ class Sample(object):
         if not self.rest_times or not self.activity:
             return 0
 
-        # Find the small rest time (probably 0 hr)
-        min_rest, To = min(enumerate(self.rest_times), key=lambda x: x[1])
-        # Find the activity at that time, and the decay rate
-        data = [(Ia[min_rest], LN2/a.Thalf_hrs) for a, Ia in self.activity.items()]
+        # Find the activity on removal from the beam, and the decay rate.  (Extrapolating
+        # back from the first rest time overflows for short-lived products.)
+        data = [(Ia, LN2/a.Thalf_hrs) for a, Ia in self._removal_activity.items()]
         # Build functions for total activity at time T - target and its derivative
         # This will be zero when activity is at target
-        f = lambda t: sum(Ia*exp(-La*(t-To)) for Ia, La in data) - target
-        df = lambda t: sum(-La*Ia*exp(-La*(t-To)) for Ia, La in data)
+        f = lambda t: sum(Ia*exp(-La*t) for Ia, La in data) - target
+        df = lambda t: sum(-La*Ia*exp(-La*t) for Ia, La in data)
         # Return target time, or 0 if target time is negative
         if f(0) <= 0:
             return 0
@@ -192,7 +195,7 @@ class Sample(object):
         # dominate at long times, but at short times they will not affect the
         # derivative. Choosing a time that satisfies the longest half-life seems
         # to work well enough.
-        initial = max(-log(target/Ia)/La + To for Ia, La in data)
+        initial = max(-log(target/Ia)/La for Ia, La in data)
         t, ft = find_root(initial, f, df)
         percent_error = 100*abs(ft)/target
         if percent_error > 0.1:
@@ -204,9 +207,11 @@ class Sample(object):
         return t
 
     def _accumulate(self, activity):
+        # First entry is the activity on removal; the rest are for the requested rest times
         for el, activity_el in activity.items():
+            self._removal_activity[el] = self._removal_activity.get(el, 0) + activity_el[0]
             el_total = self.activity.get(el, [0]*len(self.rest_times))
-            self.activity[el] = [T+v for T, v in zip(el_total, activity_el)]
+            self.activity[el] = [T+v for T, v in zip(el_total, activity_el[1:])]
 
     def show_table(self, cutoff=0.0001, format="%.4g"):
         """
